@@ -162,10 +162,12 @@ def main():
       "engines": [
         {"name": "vcheck", "path": "/verif/harness", "serves_properties": [c['property_id'] for c in checks],
          "kind_free_text": "Rust harness: seeded, sharded proptest runners over choice tapes (shrinking = tape shrinking), exhaustive small-scope enumerators, independent reference oracles, real release binary as subprocess under rlimits"},
+        {"name": "libfuzzer", "path": "/verif/fuzz", "serves_properties": ["C01", "C05", "C15", "C16"],
+         "kind_free_text": "cargo-fuzz package (nightly, libFuzzer, debug assertions on) whose targets call the same oracles as vcheck (in-process pipeline totality, comment stripper vs reference lexer, dominator definitions, field operations vs reference arithmetic); run by the thorough tier of those checks from a fresh corpus with -seed derived from VERIF_SEED, every artifact is re-judged by the deterministic oracle before it counts"},
       ],
       "checks": checks,
       "not_applicable": na,
-      "notes": "All checks: ./check <ID> --tier quick|thorough rebuilds the CLI and the harness from /repo's working tree, honours VERIF_SEED, writes /verif/evidence/<ID>.json. Exit 2 = infrastructure failure (build error), never a verdict. known_findings.json lists repaired (fixed:) and recorded (known) defects.",
+      "notes": "All checks: ./check <ID> --tier quick|thorough rebuilds the CLI and the harness from /repo's working tree, honours VERIF_SEED, writes /verif/evidence/<ID>.json. Exit 2 = infrastructure failure (build error, watchdog on a run or a single case that does not return), never a verdict. known_findings.json lists repaired (fixed:) and recorded (known) defects.",
     }
     json.dump(m, open('/verif/MANIFEST.json','w'), indent=1)
     print("checks:", [c['property_id'] for c in checks], "na:", len(na))
